@@ -68,12 +68,18 @@ def check_seq(ctx, seq, container=list):
     key = statusclass(seq)
     try:
         m = Message.from_bytes(arg)
-    except ValueError:
+    except ValueError as exc:
         if ints:
             ctx.check('rejected => malformed', not midi1.accept(seq),
                       'rejected-wellformed:' + key, case, 'ValueError on a well-formed message')
+        elif data_nonint:
+            # "TypeError for items that are not integers": when such an item in a data position is the only thing wrong
+            # with the string (the same string with 0 in its place is a message), ValueError is the wrong class
+            only_fault = midi1.accept([x if isinstance(x, Integral) else 0 for x in seq])
+            ctx.check('exception class', not only_fault, 'ValueError-for-nonint-item:' + key, case, f'ValueError: {exc}')
+            ctx.count('nonint data rejected')
         else:
-            ctx.count('nonint data rejected' if data_nonint else 'nonint status outcome')
+            ctx.count('nonint status outcome')
         return None
     except TypeError as exc:
         ctx.check('exception class', not ints, 'TypeError-on-ints:' + key, case,
